@@ -79,25 +79,19 @@ func loadShared(repo string, pkgPaths []string, extDir string) (*Shared, error) 
 func (sh *Shared) newEngine() *Engine {
 	e := &Engine{prog: sh.prog, pkgs: sh.pkgs, spkgs: sh.spkgs, fset: sh.prog.Fset, specs: sh.specs,
 		sc: &Script{seen: map[string]bool{}}, compSort: map[string]string{}, structs: map[string]*types.Struct{},
-		guards: map[string]*GuardSpec{}, assumptions: map[string]bool{}, havocCallees: map[string]bool{},
+		guards: map[string][]*GuardSpec{}, assumptions: map[string]bool{}, havocCallees: map[string]bool{},
 		extDefault: map[string]bool{}, errGlobals: map[string]int{}, modMemo: map[*ssa.Function]*modInfo{},
 		typeIDs: map[string]int{}, strConsts: map[string]string{}, fnByName: sh.funcs}
 	for _, g := range sh.specs.Guards {
 		for _, f := range g.Fields {
-			e.guards[shortPath(g.Type)+"."+f] = g
+			k := shortPath(g.Type) + "." + f
+			e.guards[k] = append(e.guards[k], g)
 		}
 	}
 	e.comp("alloc", "Int")
-	// lock ghosts exist from the start so that every state carries them
-	for _, n := range []string{"held", "rheld"} {
-		if g, ok := sh.specs.Ghosts[n]; ok {
-			e.comp("ghost$"+n, g.Sort)
-		}
-	}
-	for _, ls := range sh.specs.LockSets {
-		if g, ok := sh.specs.Ghosts[ls.Ghost]; ok {
-			e.comp("ghost$"+ls.Ghost, g.Sort)
-		}
+	// ghost components exist from the start so that every state carries them
+	for n, g := range sh.specs.Ghosts {
+		e.comp("ghost$"+n, g.Sort)
 	}
 	return e
 }
@@ -125,6 +119,7 @@ type Options struct {
 	NoBatch  bool
 	KeepSMT  bool
 	Kinds    map[string]bool // if non-nil, only these obligation kinds are generated as obligations... (filter at report)
+	Groups   []string
 	Want     func(ob *Obligation) bool // if non-nil, obligations it rejects are not solved (they stay assumptions)
 }
 
@@ -141,8 +136,28 @@ func (sh *Shared) verifyFunc(fn *ssa.Function, opt Options) (res *FuncResult) {
 		}
 	}()
 	e.checkOverflow = opt.Overflow
-	if !opt.Guards {
-		e.guards = map[string]*GuardSpec{}
+	{
+		// keep only the guard groups this run asks for ("lock" when Guards is set)
+		want := map[string]bool{}
+		if opt.Guards {
+			want["lock"] = true
+		}
+		for _, g := range opt.Groups {
+			want[g] = true
+		}
+		filtered := map[string][]*GuardSpec{}
+		for k, gs := range e.guards {
+			for _, g := range gs {
+				grp := g.Group
+				if grp == "" {
+					grp = "lock"
+				}
+				if want[grp] {
+					filtered[k] = append(filtered[k], g)
+				}
+			}
+		}
+		e.guards = filtered
 	}
 	e.top = fn
 	sh.mu.Lock()
@@ -606,6 +621,8 @@ func cmdVerify(args []string) {
 	verbose := fs.Bool("v", false, "")
 	keep := fs.Bool("keep", false, "")
 	nobatch := fs.Bool("nobatch", false, "")
+	groups := fs.String("groups", "", "comma separated protects-groups")
+	only := fs.String("only", "", "comma separated substrings: solve only obligations whose name contains one")
 	fs.Parse(args)
 	sh, err := loadShared(*repo, strings.Split(*pk, ","), *ext)
 	if err != nil {
@@ -629,7 +646,7 @@ func cmdVerify(args []string) {
 		}
 	} else if *fnames == "" {
 		for n := range sh.specs.Funcs {
-			if f, ok := sh.funcs[n]; ok && len(f.Blocks) > 0 && (f.Parent() == nil || sh.specs.Funcs[n].Attrs["modular"]) {
+			if f, ok := sh.funcs[n]; ok && len(f.Blocks) > 0 && (f.Parent() == nil || sh.specs.Funcs[n].Attrs["modular"]) && !sh.specs.Funcs[n].Attrs["inline"] {
 				fns = append(fns, f)
 			}
 		}
@@ -649,12 +666,29 @@ func cmdVerify(args []string) {
 	}
 	sort.Slice(fns, func(i, j int) bool { return fns[i].String() < fns[j].String() })
 	opt := Options{Overflow: *overflow, Guards: *guards, Timeout: *timeout, TmpDir: *tmp, KeepSMT: *keep, NoBatch: *nobatch}
+	if *groups != "" {
+		opt.Groups = strings.Split(*groups, ",")
+	}
+	if *only != "" {
+		subs := strings.Split(*only, ",")
+		opt.Want = func(ob *Obligation) bool {
+			for _, x := range subs {
+				if strings.Contains(ob.Name, x) {
+					return true
+				}
+			}
+			return false
+		}
+	}
 	results := make([]*FuncResult, len(fns))
 	parallel(len(fns), 8, func(i int) { results[i] = sh.verifyFunc(fns[i], opt) })
 	bad := 0
 	for _, r := range results {
 		nOK, nFail := 0, 0
 		for _, ob := range r.Obligations {
+			if ob.Status == "skipped" {
+				continue
+			}
 			if obOK(ob) {
 				nOK++
 			} else {
@@ -663,7 +697,7 @@ func cmdVerify(args []string) {
 		}
 		fmt.Printf("== %s: %d obligations, %d ok, %d not ok (gen %.2fs solve %.2fs, %d lines) %s\n", r.Func, len(r.Obligations), nOK, nFail, r.GenTime, r.SolveTime, r.Lines, r.Err)
 		for _, ob := range r.Obligations {
-			if !obOK(ob) || *verbose {
+			if ob.Status != "skipped" && (!obOK(ob) || *verbose) {
 				fmt.Printf("   [%s] %s  (%s, %s %.2fs) %s\n", obVerdict(ob), ob.Name, ob.Pos, ob.Solver, ob.Time, ob.Src)
 			}
 		}
